@@ -50,7 +50,8 @@ PROPS = {
             {"run": "^TestC13Interleavings", "rapid": False, "checks": {"quick": 0, "thorough": 0}, "shards": {"quick": 1, "thorough": 1}},
             {"run": "^TestC13Workloads", "race": True, "checks": {"quick": 25, "thorough": 300}, "shards": {"quick": 2, "thorough": 12}, "shrink_s": 30},
             {"run": "^TestC13RotationVsReaders", "race": True, "checks": {"quick": 5, "thorough": 60}, "shards": {"quick": 1, "thorough": 3}, "shrink_s": 30},
-            {"run": "^TestC13Interleavings", "race": True, "rapid": False, "checks": {"quick": 0, "thorough": 0}, "shards": {"quick": 0, "thorough": 1}},
+            {"run": "^TestC13Interleavings", "race": True, "rapid": False, "checks": {"quick": 0, "thorough": 0}, "shards": {"quick": 0, "thorough": 1},
+             "cover_pkg": "github.com/glowlabs-org/gca-backend/server", "cover_tiers": ["thorough"]},
         ],
         "assumptions": [
             "interleavings are explored at the verif yield points placed between critical sections; finer interleavings inside a critical section are left to the race detector on the randomised workloads",
@@ -62,7 +63,8 @@ PROPS = {
         "level": "exploration",
         "jobs": [
             {"fuzz": "FuzzDatagram", "pkg": "./fuzz", "fuzztime": {"quick": 0, "thorough": 60}},
-            {"run": "^TestC12Inputs", "checks": {"quick": 4, "thorough": 120}, "shards": {"quick": 3, "thorough": 16}, "shrink_s": 45},
+            {"run": "^TestC12Inputs", "checks": {"quick": 4, "thorough": 120}, "shards": {"quick": 3, "thorough": 16}, "shrink_s": 45,
+             "cover_pkg": "github.com/glowlabs-org/gca-backend/server", "cover_tiers": ["thorough"]},
             {"run": "^TestC12CatchUpTraffic", "checks": {"quick": 150, "thorough": 3000}, "shards": {"quick": 1, "thorough": 4}},
             {"run": "^TestC12Shutdown", "checks": {"quick": 3, "thorough": 30}, "shards": {"quick": 2, "thorough": 8}, "shrink_s": 45},
         ],
@@ -109,7 +111,8 @@ PROPS = {
     "C11": {
         "level": "exploration",
         "jobs": [
-            {"run": "^TestC11Rounds", "checks": {"quick": 12, "thorough": 200}, "shards": {"quick": 4, "thorough": 16}, "steps": 14, "shrink_s": 45},
+            {"run": "^TestC11Rounds", "checks": {"quick": 12, "thorough": 200}, "shards": {"quick": 4, "thorough": 16}, "steps": 14, "shrink_s": 45,
+             "cover_pkg": "github.com/glowlabs-org/gca-backend/client", "cover_tiers": ["thorough"]},
             {"run": "^TestC11ResyncAfterFailure", "checks": {"quick": 8, "thorough": 60}, "shards": {"quick": 2, "thorough": 8}, "shrink_s": 45},
             {"run": "^TestC11StalledServer", "checks": {"quick": 3, "thorough": 30}, "shards": {"quick": 2, "thorough": 4}, "shrink_s": 45},
         ],
